@@ -69,7 +69,8 @@ out.append("")
 # site into a helper function (new name, same file, same kind) is not mistaken for a new site
 cnt = {}
 for s_, _, _ in rows:
-    f = s_.split("::")[0]
+    comps = s_.split("::")[0].split("/")
+    f = "src/" + comps[1] if len(comps) >= 3 else "src"
     k = s_.rsplit("::", 1)[1].split("#")[0]
     k = "arith" if k.startswith("arith:") else ("unwrap" if k in ("call:unwrap", "call:expect") else k)
     cnt[(f, k)] = cnt.get((f, k), 0) + 1
